@@ -131,6 +131,12 @@ func RandomTree(r *rand.Rand, o genOpts) model.Tree {
 		default:
 			e = newFile(r, o)
 		}
+		if nm == ".fsutil-metadata" && e.Type == "dir" {
+			// an entry with the listing file's name is a leaf here: a directory of that name with children cannot coexist
+			// with the listing in a metadata-only destination (Receive refuses such a stream; not judged, see DESIGN 0.7)
+			dirs = dirs[:len(dirs)-1]
+			e = newFile(r, o)
+		}
 		e.Path = p
 		if o.Xattrs && (e.Type == "file" || e.Type == "dir") && e.Group == 0 && r.Intn(5) == 0 {
 			e.Xattrs = map[string]string{"user.k" + fmt.Sprint(r.Intn(3)): fmt.Sprint("v", r.Intn(100))}
